@@ -185,6 +185,14 @@ func stageFormat(raw json.RawMessage) Result {
 			return Result{OK: false, Obs: obs, Diff: tag + "specification says this text is a valid program, parser rejects it: " + firstLine(err.Error())}
 		}
 		f := prog.Format()
+		// formatting is a function of the program: the same tree formats to the same text every time
+		for k := 2; k <= 3; k++ {
+			if fk := prog.Format(); fk != f {
+				obs["src"] = src
+				obs["formatted"] = f
+				return Result{OK: false, Obs: obs, Diff: tag + fmt.Sprintf("formatting is not idempotent: Format call %d on the same program differs from the first: ", k) + textDiff(f, fk)}
+			}
+		}
 		if vi == 0 {
 			first = f
 			obs["formatted"] = f
